@@ -2,7 +2,7 @@ import QibModel.Pauli
 import QibModel.Json
 /-!
 Driver ops of Core D (C09): `ps.mul`, `ps.commutes`, `ps.herm`, `ps.str`, `ps.parse`, `ps.refactor`,
-`ps.mat`, `ps.ctor`, `ps.single`, `ps.setpauli`, `pop.history`.
+`ps.mat`, `ps.entries`, `ps.ctor`, `ps.single`, `ps.setpauli`, `pop.history`.
 Replies: `{"val": …}` for a returned value, `{"raised": "<ExceptionClass>"}` for a modelled exception.
 Rationals cross as `"p/q"` strings (or JSON integers), complex numbers as `[re, im]`.
 -/
@@ -111,6 +111,16 @@ def opMat (j : Json) : Except String Json := do
   let a ← parsePS (← field j "a")
   let nz := a.matSparse.map fun (r, c, re, im) => Json.arr #[jNat r, jNat c, jInt re, jInt im]
   return val (Json.mkObj [("n", jNat a.z.length), ("nz", .arr nz.toArray)])
+
+/-- selected entries of `as_matrix()` of a string on many sites (the matrix itself is never tabulated): request `pairs = [[r, c], …]`,
+reply `[[re, im], …]` -/
+def opEntries (j : Json) : Except String Json := do
+  let a ← parsePS (← field j "a")
+  let pairs ← (← fList j "pairs").mapM fun e => match e with
+    | .arr #[r, c] => do return ((← int r).toNat, (← int c).toNat)
+    | _ => .error "expected [row, column]"
+  let es := pairs.map fun (r, c) => let e := a.matEntry r c; Json.arr #[jInt e.1, jInt e.2]
+  return val (Json.mkObj [("n", jNat a.z.length), ("entries", .arr es.toArray)])
 
 def opCtor (j : Json) : Except String Json := do
   let z ← parseArrLike (← field j "z")
